@@ -191,6 +191,7 @@ int main(int, char**){
 					double reg;
 					if(!parseVal(t[2], reg) || !vh::allNat(t, 3, a)) out = "bad-op"; else out = ts->ms.gram(reg, a);
 				}
+				else if(t[1] == "3" && vh::allNat(t, 2, a) && a.size() == 2) out = ts->ms.gramThreads(a[0], a[1]);   // thread-count sweep (MultiTaskKernel IS a ProductKernel)
 				else out = "bad-op";
 			}
 			else out = "bad-op";
